@@ -31,7 +31,7 @@ RULE = (
   "solves on moving states). Non-trivial: >=1 evaluation with >=3 rows carrying non-zero force; distinct by hash(xml, qpos, qvel). "
   "kind=hist (histories): 2..5 worlds of a scene without dry friction (free bodies over a plane, limited arm, connect/joint/weld "
   "equalities, tendon limit), 10 calls (forward or step); between calls single worlds are rewritten (qpos/qvel/eq_active), reset "
-  "with a reset_data mask, have eq_active toggled, or bounce off the floor, so that their row count goes rows -> 0 -> rows while "
+  "with a reset_data mask or a reset_data_keyframe key array, have eq_active toggled, or bounce off the floor, so that their row count goes rows -> 0 -> rows while "
   "a keeper world (world 0 in 2 of 3 cases, else the last) keeps its rows; now and then all worlds are emptied at once. Every world "
   "is judged after every call, worlds with nefc == 0 included (qfrc_constraint must be the empty sum). Non-trivial: a world that "
   "carried constraint force is judged with nefc == 0 while another world has rows."
@@ -72,10 +72,12 @@ def cases(tier, seed):
   nscene = 20 if tier == "quick" else 300
   combos = [(c, s, j) for c in ("pyramidal", "elliptic") for s in ("Newton", "CG") for j in ("dense", "sparse")]
   # histories (row counts of single worlds change between calls): every cone x solver x jacobian equally often, world 0
-  # keeps its rows in two cases of three, the last world does in the third. Listed first: they are the cheapest cases.
-  for i in range(48 if tier == "quick" else 800):
+  # keeps its rows in two cases of three, the last world does in the third. Listed first and declared with the largest
+  # weight (workers run their cases by descending weight): cheap cases, and the family is observed even when a loaded
+  # machine makes the budget expire early.
+  for i in range(40 if tier == "quick" else 400):
     c, s, j = combos[i % 8]
-    out.append({"id": f"hist{seed}_{i}", "kind": "hist", "seed": seed * 100000 + 30000 + i, "cone": c, "solver": s, "jac": j, "keep0": int((i // 8) % 3 != 2)})
+    out.append({"id": f"hist{seed}_{i}", "kind": "hist", "seed": seed * 100000 + 30000 + i, "cone": c, "solver": s, "jac": j, "keep0": int((i // 8) % 3 != 2), "weight": 2})
   for i in range(ngen):
     out.append({"id": f"gen{seed}_{i}", "kind": "gen", "seed": seed * 100000 + i, "settle": (0, 20)[i % 2], "exact_geoms": 0})
   for i in range(nscene):
@@ -179,7 +181,6 @@ def run_case(case):
 
 
 HIST_CALLS = 10
-EMPTYING = ("write_free", "reset", "eq_off", "write_bounce")
 
 
 def _hist_event(rng, info, cur, nonempty_now):
@@ -192,6 +193,8 @@ def _hist_event(rng, info, cur, nonempty_now):
     opts = ["write_free", "write_free"]
     if info["lifted0"]:
       opts += ["reset", "reset"]
+    else:
+      opts += ["reset_key"]  # keyframe 0 = lifted placement
     if cur == "eqonly":
       opts += ["eq_off"] * 3
     if cur in ("rest", "bounce"):
@@ -200,12 +203,14 @@ def _hist_event(rng, info, cur, nonempty_now):
     opts = ["write_rest", "write_rest"]
     if not info["lifted0"]:
       opts += ["reset", "reset"]
+    else:
+      opts += ["reset_key"]  # keyframe 0 = bodies on the floor
     if has_eq:
       opts += ["write_eqonly"]
       if cur == "free":
         opts += ["eq_on", "eq_on"]
   mech = opts[int(rng.integers(len(opts)))]
-  kind = {"write_free": "free", "write_rest": "rest", "write_bounce": "bounce", "write_eqonly": "eqonly", "eq_off": "free", "eq_on": "eqonly", "reset": "free" if info["lifted0"] else "rest"}[mech]
+  kind = {"write_free": "free", "write_rest": "rest", "write_bounce": "bounce", "write_eqonly": "eqonly", "eq_off": "free", "eq_on": "eqonly", "reset": "free" if info["lifted0"] else "rest", "reset_key": "rest" if info["lifted0"] else "free"}[mech]
   return mech, kind
 
 
@@ -277,7 +282,7 @@ def run_hist(case):
   for k in range(HIST_CALLS):
     mech_of = {}
     if k:
-      writes, wstates, resets, togg, tvals = [], [], [], [], []
+      writes, wstates, resets, keyed, togg, tvals = [], [], [], [], [], []
       everyone = rng.random() < 0.06  # now and then every world (keepers too) loses its rows at once
       for w in range(nworld):
         if w in keepers and not everyone:
@@ -292,6 +297,10 @@ def run_hist(case):
         quiet[w] = 2 if mech == "write_bounce" else 0
         if mech == "reset":
           resets.append(w)
+        elif mech == "reset_key":
+          keyed.append(w)
+          if kind == "free" and np.any(mjm.eq_active0):
+            kind = "eqonly"  # the keyframe restores eq_active0
         elif mech in ("eq_off", "eq_on"):
           v = np.zeros(mjm.neq, dtype=bool)
           if mech == "eq_on":
@@ -311,6 +320,7 @@ def run_hist(case):
         cur[w] = kind
         rec.cover("hist:event:" + mech, 1)
       H.reset_worlds(m, d, resets)
+      H.reset_key_worlds(m, d, keyed)
       H.write_worlds(d, writes, wstates)
       H.toggle_eq(d, togg, tvals)
       if everyone:
@@ -412,6 +422,7 @@ def requirements(agg, tier):
     "hist:all_worlds_empty_evaluations": 2,
     "hist:emptied_by:write_free": 8,
     "hist:emptied_by:reset": 4,
+    "hist:emptied_by:reset_key": 2,
     "hist:emptied_by:eq_off": 2,
     "hist:emptied_by:dynamics": 2,
     "adm_worlds_without_rows": 60,
